@@ -64,13 +64,14 @@ def check_universe():
 def atom_lists(tier):
     if tier == 'quick':
         return ms.CONN_ATOMS[:4], ms.OBJ_ATOMS[:10] + ms.OBJ_ATOMS[13:14] + ms.OBJ_ATOMS[18:], ms.NAME_ATOMS[:8] + ms.NAME_ATOMS[11:], \
-            ms.ARG_ATOMS[:12] + ms.ARG_ATOMS[26:29]
+            ms.ARG_ATOMS[:12] + ms.ARG_ATOMS[26:29] + ms.ARG_ATOMS[32:]
     return ms.CONN_ATOMS, ms.OBJ_ATOMS, ms.NAME_ATOMS, ms.ARG_ATOMS
 
 
 def valid_combo(c, o, n, a):
     if n[0] is None and a[0] is None:
-        return o[0] not in ('', '*')
+        # a connection on its own (`B:`) is a pattern too; `*` / nothing at all are the constants
+        return o[0] not in ('', '*') or (o[0] == '' and c[0] not in ('', '*:'))
     if n[2] and a[0] not in (None, '()'):
         return False
     if o[0] == '' and n[0] in (None, '') and a[0] in (None, '()') and c[0] == '':
